@@ -965,6 +965,19 @@ def _meta_exact(ctx, repo, meta, mod, gp, sp):
             r, wit = eqv(nf, spec)
             ctx.check(bool(r), "R4", tuner.qual + ".check_is_fitted:refit-guard", "raises NotFittedError iff a method name is given and refit is off",
                       "tuner guard raises NotFittedError iff %s; expected iff %s (differing case %s)" % (sh(nf), sh(spec), wit), tloc, witness=wit)
+        pcd = PC(tf, At(), mark=lambda st: isinstance(st, ast.Expr) and isinstance(st.value, ast.Call) and astq.call_name(st.value) == "check_is_fitted"
+                 and (dotted(st.value.func.value) or "").startswith("self.") and (dotted(st.value.func.value) or "").endswith("_"))
+        dc = ("const", False)
+        for _st, _c in pcd.marked:
+            dc = _dj(dc, _c)
+        if pname:
+            r2, wit2 = eqv(dc, _cj(N(A("isnone(%s)" % pname[0])), A("self.refit")))
+            ctx.check(bool(r2), "R4", tuner.qual + ".check_is_fitted:inner-guard",
+                      "with refit on, the fitted state of the refitted inner forecaster is checked (a tuner switched to refit=True after a "
+                      "fit without refit has none)",
+                      "the inner forecaster's check_is_fitted runs iff %s; expected iff a method name is given and refit is on: after "
+                      "fit(refit=False); set_params(refit=True) the apply-type methods fail with an unrelated error instead of "
+                      "NotFittedError (differing case %s)" % (sh(dc), wit2), tloc, witness={"history": "fit with refit=False; set_params(refit=True); predict"})
         always = any(eqv(c, ("const", True))[0] for _, c in pct.marked)
         ctx.check(always, "R4", tuner.qual + ".check_is_fitted:base-guard", "the estimator's own fitted-state guard runs unconditionally",
                   "the tuner guard does not call super().check_is_fitted() on every path: an unfitted tuner passes and fails later with an "
